@@ -228,12 +228,16 @@ func (c07) Execute(sc core.Script, keep bool) *core.Result {
 			log.Add("VIOLATION %s %s %s %s: %s", class, op, role, param, detail)
 		}
 	}
-	var a cipher.AEAD
+	var a, sealer cipher.AEAD // opener's and sealer's AEAD: two nodes, each with its own objects built from the shared key
 	var spec aeadSpec
 	var sealed []c07Sealed
 	if p, txt, _, _ := core.Catch(func() {
 		var err error
 		a, _, spec, err = mkAEADHistory(s.AEAD, unhx(s.AEAD.Key), asm, s.Prior)
+		if err != nil {
+			panic(err)
+		}
+		sealer, _, _, err = mkAEADKey(s.AEAD, unhx(s.AEAD.Key), asm)
 		if err != nil {
 			panic(err)
 		}
@@ -243,7 +247,7 @@ func (c07) Execute(sc core.Script, keep bool) *core.Result {
 		// sealer node: fault-free
 		for i, m := range s.Msgs {
 			sm := c07Sealed{nonce: seededBytes(m.NonceSeed, spec.NonceSize, false), pt: seededBytes(m.PtSeed, m.PtLen, false), aad: seededBytes(m.AadSeed, m.AadLen, false)}
-			sm.ct = a.Seal(nil, cloneSlack(sm.nonce), cloneSlack(sm.pt), cloneSlack(sm.aad))
+			sm.ct = sealer.Seal(nil, cloneSlack(sm.nonce), cloneSlack(sm.pt), cloneSlack(sm.aad))
 			log.Add("sealed msg%d pt=%d aad=%d ct=%s", i, m.PtLen, m.AadLen, core.Hex8(sm.ct))
 			sealed = append(sealed, sm)
 		}
@@ -349,7 +353,7 @@ func (c07) Execute(sc core.Script, keep bool) *core.Result {
 		var wouldBe []byte
 		if expect == nil && bodyLen >= 16 && d.Dst.Mode != "nil" && len(nonce) == spec.NonceSize {
 			core.Catch(func() {
-				ks := a.Seal(nil, cloneSlack(nonce), make([]byte, bodyLen), nil)
+				ks := sealer.Seal(nil, cloneSlack(nonce), make([]byte, bodyLen), nil)
 				wouldBe = xorBytes(ct[:bodyLen], ks[:bodyLen])
 			})
 		}
